@@ -22,6 +22,8 @@ import (
 	"errors"
 	"fmt"
 	"math"
+	"sort"
+	"strings"
 
 	dtu "github.com/siglens/siglens/pkg/common/dtypeutils"
 	putils "github.com/siglens/siglens/pkg/integrations/prometheus/utils"
@@ -427,6 +429,18 @@ func HelperQueryArithmeticAndLogical(queryOp *structs.QueryArithmetic, resMap ma
 			}
 		}
 
+		// The label part of a group id lists the labels in the order of the query's tag filters
+		// (value filters before wildcard filters), so the same label set can be spelled
+		// differently on the two sides. Index the right-hand side by its sorted label set.
+		rightGroupIDByLabelSet := make(map[string]string, len(resultRHS.Results))
+		if !hasVectorMatchingOp && !opLabelsDoNotNeedToMatch {
+			for rGroupID := range resultRHS.Results {
+				if len(rGroupID) >= len(resultRHS.MetricName) {
+					rightGroupIDByLabelSet[canonicalLabelSet(rGroupID[len(resultRHS.MetricName):])] = rGroupID
+				}
+			}
+		}
+
 		labelStrSet := make(map[string]struct{})
 		for lGroupID, tsLHS := range resultLHS.Results {
 			// lGroupId is like: metricName{key:value,...
@@ -447,6 +461,11 @@ func HelperQueryArithmeticAndLogical(queryOp *structs.QueryArithmetic, resMap ma
 				if len(lGroupID) >= len(resultLHS.MetricName) {
 					labelStr = lGroupID[len(resultLHS.MetricName):]
 					rGroupID = resultRHS.MetricName + labelStr
+					if _, ok := resultRHS.Results[rGroupID]; !ok {
+						if id, ok := rightGroupIDByLabelSet[canonicalLabelSet(labelStr)]; ok {
+							rGroupID = id
+						}
+					}
 				}
 
 				if queryOp.Operation == sutils.LetOr || queryOp.Operation == sutils.LetUnless {
@@ -461,7 +480,11 @@ func HelperQueryArithmeticAndLogical(queryOp *structs.QueryArithmetic, resMap ma
 			} //Entries for which no matching entry in the right-hand vector are dropped
 			finalResult[lGroupID] = make(map[uint32]float64)
 			for timestamp, valueLHS := range tsLHS {
-				valueRHS := resultRHS.Results[rGroupID][timestamp]
+				valueRHS, ok := resultRHS.Results[rGroupID][timestamp]
+				if !ok && !putils.IsLogicalOperator(queryOp.Operation) {
+					// arithmetic and comparison operators have a result only where both sides have a sample
+					continue
+				}
 				putils.SetFinalResult(queryOp, finalResult, lGroupID, timestamp, valueLHS, valueRHS, swapped)
 			}
 		}
@@ -495,6 +518,13 @@ func HelperQueryArithmeticAndLogical(queryOp *structs.QueryArithmetic, resMap ma
 	}
 
 	return returnFunc()
+}
+
+// canonicalLabelSet returns the "{k1:v1,k2:v2," label part of a group id with its labels sorted.
+func canonicalLabelSet(labelStr string) string {
+	labels := strings.Split(strings.TrimSuffix(strings.TrimPrefix(labelStr, "{"), ","), ",")
+	sort.Strings(labels)
+	return strings.Join(labels, ",")
 }
 
 func ExecuteQuery(root *structs.ASTNode, aggs *structs.QueryAggregators, qid uint64, qc *structs.QueryContext) *structs.NodeResult {
